@@ -68,6 +68,8 @@ class _Tagged:
         super()._table_fit(X)
         flat = np.asarray(X, dtype=object).ravel()
         self.symbolic_ = bool(len(flat)) and is_sym(flat[0])
+        # fingerprint of concrete data: two concrete datasets of the same shape get different tables
+        self.fp_ = 0 if self.symbolic_ else int(round(sum((i % 5 + 1) * abs(float(v)) for i, v in enumerate(flat)) * 4)) % 13
         return self
 
     def _table_eval(self, cuts, tag):
@@ -77,7 +79,7 @@ class _Tagged:
         out = np.empty((cuts.shape[0], self.p), dtype=float)
         for i, c in enumerate(cuts):
             for j in range(self.p):
-                h = sum((k + 2) * 7 * int(v) for k, v in enumerate(c)) + 3 * j + 5 * self.n_
+                h = sum((k + 2) * 7 * int(v) for k, v in enumerate(c)) + 3 * j + 5 * self.n_ + 11 * self.fp_
                 out[i, j] = (h % 23) / 4.0
         return out
 
@@ -102,7 +104,7 @@ class TLocal(_Tagged, TableLocalScore):
     pass
 
 
-def build(det, scorers=None, scale=None, alt=False, wrap=False):
+def build(det, scorers=None, scale=None, alt=False, wrap=False, tuned=False):
     """alt=True: a differently configured instance (for the set_params history).
     wrap=True: the detector is given a (table) *cost*; it builds its own ChangeScore / Saving /
     LocalAnomalyScore adapter around it, so two detectors sharing the cost object have distinct
@@ -114,6 +116,8 @@ def build(det, scorers=None, scale=None, alt=False, wrap=False):
     s = 0.5 if scale is None else scale
     if alt:
         s = 7.0
+    if tuned and det in ("MovingWindow", "SBS", "CBS", "StatThresholdAnomaliser"):
+        s = None          # threshold tuned on the training data at fit (threshold_scale=None)
     any_p = dict(any_p=True)
     if wrap and det in ("MovingWindow", "SBS", "CBS"):
         sc = scorers or [TCost(**any_p)]
@@ -210,6 +214,15 @@ HISTORIES = [
     ("refit_same_data", ["fit A", "predict A", "fit A", "OBS transform_scores A"], "A"),
     ("shared_scorer_after_own_predict", ["fit A", "predict A", "OTHER fit B", "OTHER predict B", "OBS predict A"], "A"),
     ("shared_scorer_interleaved_transform", ["fit A", "transform A", "OTHER fit B", "OTHER transform B", "OBS transform A"], "A"),
+    # C: another dataset with the SAME shape and index as A (anything remembered per shape / per index shows here)
+    ("scores_after_predict_on_same_shape_data", ["fit A", "predict C", "OBS transform_scores A"], "A"),
+    ("scores_after_refit_from_same_shape_data", ["fit C", "predict C", "fit A", "OBS transform_scores A"], "A"),
+    ("predict_after_scores_on_same_shape_data", ["fit A", "transform_scores C", "OBS predict A"], "A"),
+    ("transform_after_transform_on_same_shape_data", ["fit A", "transform C", "OBS transform A"], "A"),
+    ("second_detector_on_same_shape_data", ["OTHER fit C", "OTHER predict C", "fit A", "OBS predict A"], "A"),
+    ("differently_configured_instance_first", ["ALT fit C", "ALT predict C", "ALT transform_scores C", "fit A", "OBS predict A"], "A"),
+    ("fitted_on_same_shape_data", ["fit C", "OBS predict A"], "C"),
+    ("fitted_on_same_shape_data_scores", ["fit C", "transform_scores C", "OBS transform_scores A"], "C"),
 ]
 
 
@@ -231,6 +244,7 @@ def make_det(det, n, p, group="same_train", wrap=False):
             "B2": pd.DataFrame(rngB.integers(-4, 5, size=(7, 3 - p)).astype(float))}
     if det == "StatThresholdAnomaliser" or wrap:
         data["B2"] = pd.DataFrame(rngB.integers(-4, 5, size=(7, 1)).astype(float))
+    data["C"] = pd.DataFrame(np.random.default_rng(6).integers(-4, 5, size=(n, p)).astype(float))
 
     def call(d, scorers, op, X, pcols):
         _set_p(scorers, pcols)
@@ -249,22 +263,28 @@ def make_det(det, n, p, group="same_train", wrap=False):
     def run(eng, acc):
         snapshot = [v for v in A.ravel()]
         for hname, ops, train in HISTORIES:
-            if (train == "A") != (group == "same_train") or group in ("update", "nested"):
+            if {"A": "same_train", "B": "other_train", "C": "shape_train"}[train] != group:
                 continue
             inf = dict(info, history=hname, ops=ops)
             try:
                 d, scorers = build(det, wrap=wrap)
                 other, _ = build(det, scorers=scorers, wrap=wrap)       # a second detector sharing the scorer objects
+                altd, alts = build(det, alt=True, wrap=wrap)            # a differently configured instance with its own scorers
                 params0 = {k: v for k, v in d.get_params(deep=False).items()}
                 obs = None
                 for step in ops:
                     parts = step.split()
-                    tgt = other if parts[0] == "OTHER" else d
+                    tgt = other if parts[0] == "OTHER" else (altd if parts[0] == "ALT" else d)
                     op, name = parts[-2], parts[-1]
                     X = data[name]
                     if parts[0] == "OBS":
                         _set_p(scorers, X.shape[1])
                         obs = observe(d, X, op)
+                    elif parts[0] == "ALT":
+                        try:
+                            call(tgt, alts, op, X, X.shape[1])
+                        except ValueError:
+                            pass        # the differently configured instance does not accept data this short: it then did nothing
                     else:
                         call(tgt, scorers, op, X, X.shape[1])
                 got_params = fitted_params(d)
@@ -330,6 +350,33 @@ def make_det(det, n, p, group="same_train", wrap=False):
             pass
         except Exception as ex:
             acc.concrete("history.runs", False, dict(info, history="nested_set_params", exception=f"{type(ex).__name__}: {ex}"[:200]), eng=eng)
+        # the caller reuses one buffer: fit(M); M[:] = A in place; predict(M)  ==  fresh object fitted on what M held
+        # at fit time, asked about A.  Thresholds are tuned at fit where the detector supports it.
+        try:
+            if group != "inplace":
+                raise StopIteration
+            r, rs = build(det, wrap=wrap, tuned=True)
+            _set_p(rs, p)
+            r.fit(data["C"])
+            ref = (observe(r, data["A"], "predict"), observe(r, data["A"], "transform_scores"))
+            for kind in ("frame", "ndarray"):
+                inf = dict(info, history="inplace", container=kind)
+                d, sc = build(det, wrap=wrap, tuned=True)
+                C0 = data["C"].values.astype(object)
+                M = pd.DataFrame(C0.copy()) if kind == "frame" else C0.copy()
+                _set_p(sc, p)
+                d.fit(M)
+                if kind == "frame":
+                    M.iloc[:, :] = A.copy()
+                else:
+                    M[...] = A
+                got = (observe(d, M, "predict"), observe(d, M, "transform_scores"))
+                acc.concrete("inplace.reused_buffer_same_as_fresh_object", same_obs(got[0], ref[0]) and same_obs(got[1], ref[1]),
+                             dict(inf, got=str(got[0])[:160], want=str(ref[0])[:160]), eng=eng)
+        except StopIteration:
+            pass
+        except Exception as ex:
+            acc.concrete("history.runs", False, dict(info, history="inplace", exception=f"{type(ex).__name__}: {ex}"[:200]), eng=eng)
         # update(new pandas data) == fit(old and new combined)
         try:
             if group != "update":
@@ -423,6 +470,29 @@ def make_scorers(n, p):
                 # evaluate is repeatable and order independent
                 got2 = s.evaluate(np.array(cuts[::-1]))[::-1]
                 _cmp(eng, acc, "scorer.evaluate_repeatable", got2, ref, inf)
+                # earlier fit / evaluate of the SAME cuts on another dataset of the same shape
+                Cc = np.random.default_rng(6).integers(-4, 5, size=(n, p)).astype(float)
+                s3 = mk()
+                s3.fit(Cc)
+                s3.evaluate(np.array(cuts))
+                s3.fit(A)
+                _cmp(eng, acc, "scorer.same_cuts_on_same_shape_data_before", s3.evaluate(np.array(cuts)), ref, inf)
+                # the caller reuses one buffer: fit(buf); buf[:] = A; fit(buf)
+                buf = Cc.astype(object).copy()
+                s4 = mk()
+                s4.fit(buf)
+                s4.evaluate(np.array(cuts))
+                buf[...] = A
+                s4.fit(buf)
+                _cmp(eng, acc, "scorer.refit_on_reused_buffer", s4.evaluate(np.array(cuts)), ref, inf)
+                # refit on a view of the data the scorer already holds (time reversal, column reversal)
+                for vname, view in (("reversed_rows", A[::-1]), ("reversed_columns", A[:, ::-1])):
+                    s5 = mk()
+                    s5.fit(A)
+                    s5.evaluate(np.array(cuts))
+                    s5.fit(view)
+                    _cmp(eng, acc, "scorer.refit_on_view_of_fitted_data", s5.evaluate(np.array(cuts)), mk().fit(view.copy()).evaluate(np.array(cuts)),
+                         dict(inf, view=vname))
                 # clone / set_params
                 c = s.clone().fit(A)
                 _cmp(eng, acc, "scorer.clone_same_as_fresh", c.evaluate(np.array(cuts)), ref, inf)
@@ -453,7 +523,7 @@ def jobs(tier):
                 ("CAPA", 4, 1), ("CAPA", 3, 2), ("MVCAPA", 2, 2), ("MVCAPA", 3, 1), ("StatThresholdAnomaliser", 5, 1)]
         sc = [(4, 1), (5, 2)]
     for (det, n, p) in grid:
-        for group in ("same_train", "other_train", "update"):
+        for group in ("same_train", "other_train", "shape_train", "inplace", "update"):
             out.append(Job(M, "make_det", dict(det=det, n=n, p=p, group=group), split=True))
     for (det, n) in ([("MovingWindow", 4), ("SBS", 3), ("CAPA", 3)] if tier == "quick" else [("MovingWindow", 5), ("SBS", 4), ("CBS", 4), ("CAPA", 3), ("MVCAPA", 2)]):
         out.append(Job(M, "make_det", dict(det=det, n=n, p=1, group="same_train", wrap=True), split=True))
@@ -503,10 +573,28 @@ def replay(cx):
             got = s.evaluate(np.array(cuts))
             got2 = s.evaluate(np.array(cuts[::-1]))[::-1]
             c = s.clone().fit(Af).evaluate(np.array(cuts))
+            Cc = np.random.default_rng(6).integers(-4, 5, size=(n, p)).astype(float)
+            s3 = mk().fit(Cc)
+            s3.evaluate(np.array(cuts))
+            g3 = s3.fit(Af).evaluate(np.array(cuts))
+            buf = Cc.copy()
+            s4 = mk().fit(buf)
+            s4.evaluate(np.array(cuts))
+            buf[...] = Af
+            g4 = s4.fit(buf).evaluate(np.array(cuts))
+            views = []
+            for vname, view in (("reversed rows", Af[::-1]), ("reversed columns", Af[:, ::-1])):
+                s5 = mk().fit(Af)
+                s5.evaluate(np.array(cuts))
+                views.append((vname, s5.fit(view).evaluate(np.array(cuts)), mk().fit(view.copy()).evaluate(np.array(cuts))))
         bad = []
-        for nm, g in (("after a history of other fits", got), ("evaluated in reverse order", got2), ("clone", c)):
+        for nm, g in (("after a history of other fits", got), ("evaluated in reverse order", got2), ("clone", c),
+                      ("after the same cuts on same-shape data", g3), ("refitted on a reused buffer", g4)):
             if g.shape != ref.shape or not np.allclose(g, ref):
                 bad.append(f"{info['scorer']} {nm}: {np.asarray(g).tolist()} vs fresh {ref.tolist()}")
+        for vname, g, w in views:
+            if g.shape != w.shape or not np.allclose(g, w):
+                bad.append(f"{info['scorer']} refitted on a view ({vname}) of the data it holds: {np.asarray(g).tolist()} vs fresh {w.tolist()}")
         return dict(reproduced=bool(bad), key=f"{ob}|{info['scorer']}", what="; ".join(bad)[:600])
     # detector histories: re-run symbolically-free by giving dataset A a numeric identity (tagged scorers
     # answer with fixed numbers for concrete data; A is distinguished from B by its length)
@@ -515,6 +603,7 @@ def replay(cx):
     Af = pd.DataFrame(np.array([[float((3 * i + 5 * j) % 7) - 2.5 for j in range(p)] for i in range(n)]))
     data = {"A": Af, "B": pd.DataFrame(rngB.integers(-4, 5, size=(6, p)).astype(float)),
             "B2": pd.DataFrame(rngB.integers(-4, 5, size=(7, 3 - p if (det != "StatThresholdAnomaliser" and not info.get("wrap")) else 1)).astype(float))}
+    data["C"] = pd.DataFrame(np.random.default_rng(6).integers(-4, 5, size=(n, p)).astype(float))
     bad = []
 
     def nobs(o):
@@ -529,15 +618,21 @@ def replay(cx):
                 _, ops, train = hist[0]
                 d, scorers = build(det, scale=0.3, wrap=info.get('wrap', False))
                 other, _ = build(det, scorers=scorers, scale=0.3, wrap=info.get('wrap', False))
+                altd, alts = build(det, alt=True, wrap=info.get('wrap', False))
                 obs = None
                 for step in ops:
                     parts = step.split()
-                    tgt = other if parts[0] == "OTHER" else d
+                    tgt = other if parts[0] == "OTHER" else (altd if parts[0] == "ALT" else d)
                     op, name = parts[-2], parts[-1]
                     X = data[name]
-                    _set_p(scorers, X.shape[1])
+                    _set_p(alts if parts[0] == "ALT" else scorers, X.shape[1])
                     if parts[0] == "OBS":
                         obs = observe(d, X, op)
+                    elif parts[0] == "ALT":
+                        try:
+                            getattr(tgt, op)(X)
+                        except (ValueError, NotImplementedError):
+                            pass
                     elif op == "fit":
                         tgt.fit(X)
                     elif op == "transform_scores":
@@ -569,6 +664,24 @@ def replay(cx):
                 ref = nobs(observe(r.fit(data["A"]), data["A"], "transform_scores")) + nobs(_params_of(r))
                 if got != ref:
                     bad.append(f"after nested set_params the detector computes with {got[:200]}, a fresh detector built with the new value with {ref[:200]}")
+            elif hname == "inplace":
+                r, rs = build(det, wrap=info.get('wrap', False), tuned=True)
+                _set_p(rs, p)
+                r.fit(data["C"])
+                ref = nobs(observe(r, data["A"], "predict")) + nobs(observe(r, data["A"], "transform_scores"))
+                for kind in ("frame", "ndarray"):
+                    d, sc = build(det, wrap=info.get('wrap', False), tuned=True)
+                    M = data["C"].copy() if kind == "frame" else data["C"].values.copy()
+                    _set_p(sc, p)
+                    d.fit(M)
+                    if kind == "frame":
+                        M.iloc[:, :] = Af.values
+                    else:
+                        M[...] = Af.values
+                    got = nobs(observe(d, M, "predict")) + nobs(observe(d, M, "transform_scores"))
+                    if got != ref:
+                        bad.append(f"fit(M); M[:] = A in place ({kind}); predict / transform_scores(M) gives {got[:200]} but a fresh object fitted on the old "
+                                   f"contents and asked about A gives {ref[:200]}")
             elif hname == "update":
                 A1 = pd.DataFrame(rngB.integers(-4, 5, size=(5, p)).astype(float))
                 Anew = pd.DataFrame(Af.values, index=pd.RangeIndex(5, 5 + n))
